@@ -121,6 +121,8 @@ class World:
 
     def inv_at(self, m, poller, pend=None, order=True):
         out = [('C02.order: min_recv_id never below the id expected at entry', m >= self.m_entry)] if order else []
+        if order:
+            out.append(('C02.order: the record of the last id handed out (prev_id) changes only when a set is returned', zi(self.me.f['prev_id']) == z3.Int('prev_id0')))
         for k, s in enumerate(self.senders):
             if s.f['ephemeral']:
                 continue
@@ -164,6 +166,7 @@ class World:
             s.f['recvd_new'] = SDict(fr('tkeys', KS), fr('tvals', VS))
 
     def havoc_common(self, ex, env):
+        self.me.f['prev_id'] = fr('prev_id', I)       # pinned to its entry value by the invariant: it changes only when a set is returned
         for s in self.senders:
             self.fresh_sender_state(s)
         poller = env.lookup('poller')
@@ -450,6 +453,21 @@ class RecvUnit(Unit):
         logging.disable(logging.CRITICAL)
         from replay_drivers import zmq_history
         info = failure['extra']
+        if 'eph_flag' in failure.get('obligation', ''):
+            # native: sources of mixed kinds in every order; each request must say `eph` exactly for the ephemeral sources
+            import itertools, json
+            Z = zmq_history.load()
+            obs = []
+            for ephs in itertools.product((0, 1, 2), repeat=2):
+                r = Z.ZMQReceiver([(f'tcp://h{k}:{6000 + 2 * k}' + '?' * e, None) for k, e in enumerate(ephs)], 'sink')
+                r.recv(timeout=0)
+                for k, (e, snd) in enumerate(zip(ephs, r.senders.values())):
+                    for m in (snd.push.sent if snd.push is not None else []):
+                        body = json.loads(m[0])
+                        if body.get('mid', 0) > -2 and body.get('eph', 0) != e:
+                            obs.append(f'sources {["sync", "?", "??"][ephs[0]]}, {["sync", "?", "??"][ephs[1]]}: the request to source {k} says eph={body.get("eph", 0)}')
+            return {'confirmed': bool(obs), 'inputs': 'recv(timeout=0) on receivers with synchronized / ? / ?? sources in every order', 'observed': sorted(set(obs))[:4] or 'eph exactly for the ephemeral sources',
+                    'required': 'a request says `eph` exactly when that source is attached as ephemeral (a synchronized consumer must be waited for)'}
         if 'prev_id updated' in failure.get('obligation', ''):
             # native: a receiver that is handed the state by its caller (coupled with a sender) must still record the id it returned: the next call without a state
             # (MQ does that after a dropped send) starts from it
